@@ -71,6 +71,16 @@ CLAIMS = {
   'text': 'Partial, structural: all rounding data built on the formatting paths takes the generated DEFAULT_ROUNDING_MODE and the sign of the formatted number; pad_integral\'s is_nonnegative derives from that sign; FMT_MAX_INTEGER_PADDING feeds a comparison; and no value obtained from Formatter::{width, fill, align, sign_plus, sign_minus, sign_aware_zero_pad, flags, alternate} flows - directly or through a callee parameter - into the bytes written or into pad_integral, which is a sufficient condition for "flags never alter the digits". That the ASCII-digit rounding agrees numerically with the library rounding is NOT decided.',
   'note': TRUST + ' Formatter::pad_integral only pads around the buffer it is given.',
  },
+ 'C07': {
+  'technique': 'static analysis: provenance of Context fields at the final rounding sink; own-body panic-site enumeration of the precision-to-scale conversion',
+  'text': 'Partial, structural: Context::{round_decimal, round_decimal_ref, add_refs, add_refs_into} and BigDecimalRef::round_with_context deliver the result of a rounding routine that receives ctx.precision and ctx.rounding; with_precision_round forwards its mode unchanged to with_scale_round and converts precision to scale through checked arithmetic only (the single may-panic site is the documented expect, no integer `as` cast). with_prec\'s rounding (including its behaviour on negatives) and digit counting are NOT decided.',
+  'note': TRUST,
+ },
+ 'C18': {
+  'technique': 'static analysis: structural projection check - path outcome terms of constructors/accessors/views normalised (helpers inlined) and compared with a projection specification',
+  'text': 'Partial, structural: 24 constructors, accessors and views (new, from_bigint, from_biguint, sign, fractional_digit_count, as/into_bigint_and_exponent/scale, digits -> count of the magnitude, to_ref, abs, BigDecimalRef::{to_owned, sign, fractional_digit_count, is_zero, count_digits, as_parts, abs, neg}, the four From<..> for BigDecimalRef) are single-path pure projections equal to their specification. digits()\' counting loop, ten_to_the* and normalized() are NOT decided.',
+  'note': TRUST + ' Specification in tables/projection_spec.json.',
+ },
 }
 _PENDING = 'check not built yet in this commit (implementation in progress, see DESIGN.md section 8)'
 NOT_APPLICABLE = {('C%02d' % i): _PENDING for i in range(1, 21) if ('C%02d' % i) not in CLAIMS}
